@@ -424,6 +424,9 @@ class Evaluator:
             return None
         if isinstance(s, ast.Continue):
             self.emit("continue", s, locs=dict(st.locs), attrs=dict(st.attrs))
+            if self._loop_flags and "unroll" in self._loop_flags[-1]:
+                fl = self._loop_flags[-1]
+                fl["conts"].append((self._pc_cond(fl["unroll"]), st.copy()))
             return None
         if isinstance(s, ast.Assert):
             self.ev(s.test, st)
@@ -514,6 +517,12 @@ class Evaluator:
         lid = "%s#L%d" % (fr.func.qualname, fr.loop_n)
         is_for = isinstance(s, ast.For)
         it = self.ev(s.iter, st) if is_for else None
+        if is_for and not s.orelse:
+            ia = it.single_atom()
+            if ia is not None and ia[0] in ("tuple", "list") and 1 <= len(ia[1]) <= 4 and not any(
+                    isinstance(n, (ast.Break, ast.Return)) for n in ast.walk(s)):
+                fr.loop_n -= 1
+                return self._unrolled(s, ia[1], st)
         # discover what the body may write (fixpoint, silent)
         hav_a, hav_l = set(), set()
         for n in ast.walk(s):
@@ -580,6 +589,23 @@ class Evaluator:
         if s.orelse:
             out = self.exec_block(s.orelse, out)
         return out
+
+    def _unrolled(self, s, items, st):
+        """for x in (a, b): body  ==  body[x:=a]; body[x:=b]  (short literal collections only; `continue` ends the copy)"""
+        for x in items:
+            if st is None:
+                return None
+            mark = len(self.pc)
+            self.assign(s.target, x, st, s, quiet=True)
+            flags = {"break": False, "unroll": mark, "conts": []}
+            self._loop_flags.append(flags)
+            end = self.exec_block(s.body, st)
+            self._loop_flags.pop()
+            del self.pc[mark:]
+            for cnd, cst in flags["conts"]:
+                end = cst if end is None else State(self._merge_maps(cnd, cst.attrs, end.attrs), self._merge_locs(cnd, cst.locs, end.locs))
+            st = end
+        return st
 
     def _havoc(self, st, hav_a, hav_l, lid):
         for k in hav_a:
@@ -783,9 +809,33 @@ class Evaluator:
     def ev_Name(self, e, st):
         return self.load_name(e.id, st, e)
 
+    def _under_pc(self, v):
+        """A gated phi whose condition (or its negation) is among the guards that dominate the current statement is its
+        corresponding branch: `x = a if c else b ... if c: use(x)` reads a.  (Sound: the phi's condition term denotes the value the
+        test had when the phi was built, and the same term guards the current path.)"""
+        a = v.single_atom() if isinstance(v, R) else None
+        if a is None or a[0] != "ite" or not self.pc:
+            return v
+        known = set()
+        for p_ in self.pc:
+            for x in _conjuncts(p_.cond):
+                known.add(x)
+        for _ in range(8):
+            a = v.single_atom()
+            if a is None or a[0] != "ite":
+                break
+            if a[1] in known:
+                v = a[2]
+            elif T.mk_not(a[1]) in known:
+                v = a[3]
+            else:
+                break
+        return v
+
     def load_name(self, name, st, node):
         v = st.locs.get(name)
         if v is not None:
+            v = self._under_pc(v)
             a = v.single_atom()
             if a is not None and a[0] == "undef":
                 self.emit("undefread", node, name=name, value=v)
@@ -1131,6 +1181,18 @@ class Evaluator:
 
     def _comp(self, kind, e, st, elts):
         fr = self.frames[-1]
+        # a comprehension over a short literal collection is unrolled: [f(t) for t in (a, b)] == [f(a), f(b)]
+        if len(e.generators) == 1 and not e.generators[0].ifs and kind in ("list", "gen") and len(elts) == 1 and isinstance(e.generators[0].target, ast.Name):
+            itv = self.ev(e.generators[0].iter, st)
+            ia = itv.single_atom()
+            if ia is not None and ia[0] in ("tuple", "list") and 1 <= len(ia[1]) <= 6:
+                sub = State(st.attrs, dict(st.locs))
+                out = []
+                for x in ia[1]:
+                    sub.locs[e.generators[0].target.id] = x
+                    out.append(self.ev(elts[0], sub))
+                st.attrs = sub.attrs
+                return atom(("list", tuple(out)))
         sub = State(st.attrs, dict(st.locs))
         iters = []
         conds = []
@@ -1421,6 +1483,9 @@ class Evaluator:
             return self._call_dotted(ra[1] + "." + name, args, kwargs, st, node)
         ci = self._obj_class(recv)
         res = atom(("mcall", recv, name, tuple(args), _kw(kwargs)))
+        if name == "get" and ci is None and len(args) == 2 and not kwargs:
+            # d.get(k, default)  ==  d[k] if k in d else default
+            res = T.mk_ite(atom(("in", args[0], recv)), self.mk_sub(recv, args[0]), args[1])
         tgt = None
         mutates = name in MUTATORS
         if ci is not None:
